@@ -6,6 +6,7 @@ import (
 	"encoding/hex"
 	"encoding/json"
 	"fmt"
+	"math/big"
 	"math/rand"
 
 	"github.com/gopcua/opcua/uapolicy"
@@ -311,7 +312,44 @@ func c15Pair(c *fw.Ctx, p *refpeer.Policy, lb, rb int, lengths []int, r *rand.Ra
 	}
 }
 
+// c15OddSizes: keys whose length in bits is not a multiple of 8, just outside the limits (synthetic moduli; construction does not need the factors) must be refused like any other key outside.
+func c15OddSizes(c *fw.Ctx) {
+	for _, p := range refpeer.Policies {
+		good := keys.Get("a", 2048)
+		if !p.KeyAllowed(2048) {
+			good = keys.Get("a", 1024)
+		}
+		// the library states its limits in bytes: a key of n bits needs ceil(n/8) bytes, so the first lengths that
+		// are outside are min-8 and max+1 bits (min-7..min-1 bits still fill the minimal number of bytes)
+		for _, bits := range []int{p.MinKeyBits - 15, p.MinKeyBits - 8, p.MaxKeyBits + 1, p.MaxKeyBits + 3, p.MaxKeyBits + 7, p.MaxKeyBits + 8} {
+			n := new(big.Int).Lsh(big.NewInt(1), uint(bits-1))
+			n.Add(n, big.NewInt(12345)) // bit length = bits, odd
+			pub := &rsa.PublicKey{N: n, E: 65537}
+			priv := &rsa.PrivateKey{PublicKey: *pub, D: big.NewInt(3), Primes: []*big.Int{big.NewInt(3), big.NewInt(5)}}
+			cs := c15Case{Policy: p.URI, Local: 2048, Remote: bits, What: "construct-odd-size"}
+			c.Journal(int64(900000+bits), cs)
+			var e1, e2 error
+			if pn := fw.Catch(func() {
+				_, e1 = uapolicy.Asymmetric(p.URI, good.Key, pub)
+				_, e2 = uapolicy.Asymmetric(p.URI, priv, &good.Key.PublicKey)
+			}); pn != nil {
+				c.Violation("asymmetric-"+pn.Key(), "uapolicy.Asymmetric panicked: "+pn.Msg, cs)
+				continue
+			}
+			c.Eval(1)
+			c.Nontrivial(fmt.Sprintf("construct-odd:%s:%d", p.Name, bits))
+			if e1 == nil || e2 == nil {
+				c.Violation(fmt.Sprintf("key-limit-not-enforced:%s", p.Name),
+					fmt.Sprintf("Asymmetric(%s) accepted a key of %d bits as remote (err %v) or local (err %v) key; allowed are %d..%d bits", p.Name, bits, e1, e2, p.MinKeyBits, p.MaxKeyBits), cs)
+			}
+		}
+	}
+}
+
 func c15Run(c *fw.Ctx) error {
+	if c.Batch == 0 && c.Resume == 0 {
+		c15OddSizes(c)
+	}
 	type combo struct {
 		p      *refpeer.Policy
 		lb, rb int
@@ -362,7 +400,7 @@ func init() {
 	fw.Register("C14", fw.Spec{
 		Plan: func(tier string) fw.Plan {
 			p := fw.Plan{Batches: 4, TimeoutS: 300, MinNontrivial: 2000, Level: "exploration",
-				Rule: "5 symmetric policies x seed-determined nonce pairs (random, all-zero, all-0xFF, common prefix, one bit apart; policy nonce length, 10% other lengths) through the public uapolicy.Symmetric; oracle = independent P_SHA derivation + HMAC + AES-CBC (refpeer) and the mirrored instance; distinct = distinct (policy, nonce pair)",
+				Rule:        "5 symmetric policies x seed-determined nonce pairs (random, all-zero, all-0xFF, common prefix, one bit apart; policy nonce length, 10% other lengths) through the public uapolicy.Symmetric; oracle = independent P_SHA derivation + HMAC + AES-CBC (refpeer) and the mirrored instance; distinct = distinct (policy, nonce pair)",
 				Assumptions: []string{"Go's crypto/hmac, crypto/aes, crypto/sha* are shared with gopcua and trusted"}}
 			if tier == "thorough" {
 				p.Batches, p.TimeoutS, p.MinNontrivial = 16, 1200, 200000
@@ -382,7 +420,7 @@ func init() {
 	fw.Register("C15", fw.Spec{
 		Plan: func(tier string) fw.Plan {
 			p := fw.Plan{Batches: 16, TimeoutS: 600, MinNontrivial: 1000, Level: "exploration",
-				Rule: "5 policies x local key size x remote key size from {512,1024,2048,3072,4096} (committed keys): construction must fail iff a key is outside the policy's limits; for allowed pairs every plaintext length 0..3 blocks+1 (quick: every length for the 2048/2048 pair, block boundaries +-1 for the others) is encrypted/decrypted and cross-checked against the reference RSA schemes; signatures verified, tampered, and checked under a wrong key; distinct = distinct (policy, key pair, length)",
+				Rule:        "5 policies x local key size x remote key size from {512,1024,2048,3072,4096} (committed keys): construction must fail iff a key is outside the policy's limits; for allowed pairs every plaintext length 0..3 blocks+1 (quick: every length for the 2048/2048 pair, block boundaries +-1 for the others) is encrypted/decrypted and cross-checked against the reference RSA schemes; signatures verified, tampered, and checked under a wrong key; distinct = distinct (policy, key pair, length)",
 				Assumptions: []string{"Go's crypto/rsa is shared with gopcua and trusted"}}
 			if tier == "thorough" {
 				p.TimeoutS, p.MinNontrivial = 3000, 20000
